@@ -36,6 +36,7 @@ type CrashPoint struct {
 	Node  uint64
 	K     int    // the K-th durable write (Save with content / CreateSnapshot) on that node, counted over all groups
 	Side  string // "before" | "after"
+	Kind  string // "" = writes of all groups count; "zero" | "partition" = only those
 	fired int32
 	Hit   string // what it was: "<zero|partition>/<Save|CreateSnapshot>/#<per-group ordinal>/<side>"
 }
@@ -125,6 +126,9 @@ func (w *RecWAL) boundary(call, side string, ordinal int) {
 	}
 	cp := w.c.armed()
 	if cp == nil || cp.Node != w.n.Id || cp.Side != side {
+		return
+	}
+	if cp.Kind != "" && cp.Kind != w.kind() {
 		return
 	}
 	var k int
@@ -298,6 +302,15 @@ func (c *Cluster) ArmCrash(i int, k int, side string) *CrashPoint {
 	cp := &CrashPoint{Node: n.Id, K: k, Side: side}
 	c.mu.Lock()
 	c.crash = cp
+	c.mu.Unlock()
+	return cp
+}
+
+// ArmCrashKind is ArmCrash counting only the durable writes of one kind of group ("zero" | "partition").
+func (c *Cluster) ArmCrashKind(i int, kind string, k int, side string) *CrashPoint {
+	cp := c.ArmCrash(i, k, side)
+	c.mu.Lock()
+	cp.Kind = kind
 	c.mu.Unlock()
 	return cp
 }
